@@ -90,6 +90,10 @@ type VC struct {
 	slicePtr     map[Term]Term
 	prov         map[Term]Term // value term -> untouched entry-state value it was loaded from
 	inContract   int
+	entryKeys    map[string]string
+	contractErrs map[Term]bool
+	usesModTy    bool
+	inlinedInstrs int
 	facetNames   map[string]bool // abstract-state facets (method names) used; persists across passes
 	trusted      map[Term]bool // terms trusted to be non-nil (entry parameters, initialised globals, getter results)
 	exit         *State
@@ -100,6 +104,7 @@ type VCOpts struct {
 	Safety    bool // generate zero-annotation safety obligations
 	MaxInline int
 	Canary    bool
+	InlineBudget int // stop inlining after this many inlined instructions (0 = unlimited)
 	// when non-nil restricts which obligation kinds are emitted
 }
 
@@ -599,13 +604,16 @@ func (fr *Frame) define(v ssa.Value, t Term) Term {
 		vc.fnTerms[name] = f
 	}
 	if p, ok := fr.vc.prov[t]; ok {
-		fr.vc.prov[name] = p
+		fr.vc.prov[name] = strings.Replace(p, " "+t+")", " "+name+")", 1)
 	}
 	if b, ok := vc.boxes[t]; ok {
 		vc.boxes[name] = b
 	}
 	if vc.trusted[t] {
 		vc.trusted[name] = true
+	}
+	if vc.contractErrs[t] {
+		vc.contractErrs[name] = true
 	}
 	if ei, ok := vc.elemInfo[t]; ok {
 		vc.elemInfo[name] = ei
@@ -625,4 +633,37 @@ func (fr *Frame) freshVal(v ssa.Value) Term {
 	vc.sc.DeclConst(name, vc.sortOf(v.Type()))
 	fr.vals[v] = name
 	return name
+}
+
+// entryTrusted: the nil policy. entryT_K(v) holds for every value stored in the entry-state
+// memory of key K (configuration objects are assumed well-formed); a value loaded from memory is
+// trusted exactly when it is such an entry value, wherever it was copied to.
+func (vc *VC) entryTrusted(key, sort string, v, addr Term) Term {
+	pred := "entryT_" + sanitize(key)
+	vc.sc.DeclFun(pred, []string{sort}, "Bool")
+	m0 := vc.memInit(key, "(Array Ref "+sort+")")
+	if !strings.Contains(addr, "?") {
+		vc.sc.Axiom(sx(pred, sx("select", m0, addr)))
+	}
+	vc.entryKeys[key] = sort
+	return sx(pred, v)
+}
+
+// finalizeEntryTrust: with quantified copy facts around (append), state the policy for all addresses.
+func (vc *VC) finalizeEntryTrust() {
+	quant := false
+	for _, a := range vc.sc.axioms {
+		if strings.HasPrefix(a, "(forall ((?b Ref) (?i Int))") {
+			quant = true
+		}
+	}
+	if !quant {
+		return
+	}
+	for _, key := range sortedKeys(vc.entryKeys) {
+		sort := vc.entryKeys[key]
+		pred := "entryT_" + sanitize(key)
+		m0 := vc.memInit(key, "(Array Ref "+sort+")")
+		vc.sc.Axiom(fmt.Sprintf("(forall ((?a Ref)) (! (%s (select %s ?a)) :pattern ((select %s ?a))))", pred, m0, m0))
+	}
 }
